@@ -467,3 +467,76 @@ Section SpillLayout.
     eapply leaf_loop_building; [|exact H]. split; [exact P1|exact I1].
   Qed.
 End SpillLayout.
+
+(** * reading back, in general: whatever the directory structure, if [read_directories] yields the expansion of a
+      tile-only entry list [es], the opened archive serves exactly those placements out of the data section *)
+Lemma section_app_l (d junk : bytes) off len : off + len <= nlen d -> section (d ++ junk) off len = section d off len.
+Proof.
+  intros H. unfold section, nlen in *. rewrite app_length.
+  destruct (N.leb_spec (N.of_nat (length d + length junk)) off) as [A|A]; destruct (N.leb_spec (N.of_nat (length d)) off) as [B|B]; try lia.
+  - reflexivity.
+  - assert (len = 0) by lia. subst. rewrite N.min_0_l. reflexivity.
+  - replace (N.min len (N.of_nat (length d + length junk) - off)) with len by lia.
+    replace (N.min len (N.of_nat (length d) - off)) with len by lia.
+    rewrite skipn_app, firstn_app. rewrite skipn_length.
+    replace (N.to_nat len - (length d - N.to_nat off))%nat with 0%nat by lia. cbn [firstn]. now rewrite app_nil_r.
+Qed.
+
+Section ReadBackCore.
+  Context (cx : ctx).
+
+  Theorem from_reader_core (img pre data junk mb rest : bytes) (h : header) (es : list entry) (meta : bytes) :
+    img = pre ++ data ++ junk -> h_data_off h = nlen pre ->
+    decode_header img = Ok (h, rest) ->
+    h_meta_len h = nlen mb -> mb <> [] -> section img (h_meta_off h) (h_meta_len h) = mb ->
+    decompress_all cx (h_icomp h) mb = Ok meta -> json_parse cx meta = Ok (Some meta) ->
+    read_directories cx (h_icomp h) img (h_root_off h) (h_root_len h) (h_leaf_off h) full_range
+      = Ok (fold_left (fun a e => expand_run full_range e a) es []) ->
+    (forall id o l, In (id, o, l) (expand es) -> 1 <= l /\ o + l <= nlen data /\ nlen pre + o < two64) ->
+    (forall id o l o' l', In (id, o, l) (expand es) -> In (id, o', l') (expand es) -> o = o' /\ l = l') ->
+    exists p', from_reader cx img full_range = Ok p' /\
+      p_meta p' = meta /\ p_ttype p' = h_ttype h /\ p_tcomp p' = h_tcomp h /\ p_icomp p' = h_icomp h /\
+      p_minz p' = h_minz h /\ p_maxz p' = h_maxz h /\ p_cz p' = h_cz h /\
+      p_min_lon p' = h_min_lon h /\ p_min_lat p' = h_min_lat h /\ p_max_lon p' = h_max_lon h /\
+      p_max_lat p' = h_max_lat h /\ p_clon p' = h_clon h /\ p_clat p' = h_clat h /\
+      (forall id o l, In (id, o, l) (expand es) -> get_tile (p_tm p') id = Ok (Some (section data o l))) /\
+      (forall id, (forall o l, ~ In (id, o, l) (expand es)) -> get_tile (p_tm p') id = Ok None).
+  Proof.
+    intros Dimg Do Hd Ml Hmb Smeta Hdec Hjson Hrd Hpl Huniq.
+    unfold from_reader. rewrite Hd. cbn [bind].
+    assert (Eml : (h_meta_len h =? 0) = false) by (rewrite Ml; destruct mb; [congruence|reflexivity]). rewrite Eml.
+    unfold read_meta. rewrite Smeta, Hdec. cbn [bind]. rewrite Hjson. cbn [bind].
+    rewrite Hrd. cbn [bind].
+    set (t := fold_left (fun a e => expand_run full_range e a) es []).
+    assert (Nt : keys_nodup t).
+    { unfold t. clear.
+      assert (G : forall (l : list entry) acc, keys_nodup acc -> keys_nodup (fold_left (fun a e => expand_run full_range e a) l acc)).
+      { induction l as [|e r IH]; intros acc Ha; [exact Ha|]. cbn [fold_left]. apply IH. now apply expand_run_nodup. }
+      apply G. constructor. }
+    assert (Tin : forall id o l, In (id, (o, l)) t -> In (id, o, l) (expand es)).
+    { intros id o l Hin. pose proof (aget_of_in _ _ _ Nt Hin) as Hg. unfold t in Hg. rewrite fold_expand_aget in Hg. cbn [aget] in Hg.
+      destruct (last_cover es id) as [e|] eqn:El; [|discriminate]. injection Hg as <- <-.
+      destruct (last_cover_in _ _ _ El) as [He Hr]. apply in_expand. exists e. auto. }
+    rewrite Do.
+    destruct (register_tiles_ok (nlen pre) t (tm_empty (@Some bytes img))) as (s' & Rs).
+    { intros id o l Hin. destruct (Hpl id o l (Tin id o l Hin)) as (A & B & C). split; lia. }
+    eexists. split; [rewrite Rs; cbn [bind]; reflexivity|]. cbn [p_meta p_ttype p_tcomp p_icomp p_minz p_maxz p_cz p_min_lon p_min_lat p_max_lon p_max_lat p_clon p_clat p_tm].
+    repeat (split; [reflexivity|]).
+    destruct (register_tiles_spec _ _ _ _ Nt Rs) as (Bk & _ & _ & Tb).
+    split.
+    - intros id o l Hin. unfold get_tile. rewrite Tb. unfold t. rewrite fold_expand_aget. cbn [aget].
+      destruct (last_cover es id) as [e|] eqn:El.
+      + destruct (last_cover_in _ _ _ El) as [He Hr].
+        assert (Hin' : In (id, e_off e, e_len e) (expand es)) by (apply in_expand; exists e; auto).
+        destruct (Huniq _ _ _ _ _ Hin Hin') as [<- <-].
+        cbn [tile_content]. rewrite Bk. cbn [tm_empty backing].
+        destruct (Hpl id o l Hin) as (A & B & C). rewrite Dimg, read_at_inner.
+        * now rewrite section_app_l.
+        * unfold nlen in *. rewrite app_length. lia.
+        * exact A.
+      + exfalso. apply in_expand in Hin. destruct Hin as (e & He & Hr & _). rewrite (last_cover_none _ _ El e He) in Hr. discriminate.
+    - intros id Hn. unfold get_tile. rewrite Tb. unfold t. rewrite fold_expand_aget. cbn [aget tm_empty tile_by_id].
+      destruct (last_cover es id) as [e|] eqn:El; [|reflexivity].
+      destruct (last_cover_in _ _ _ El) as [He Hr]. exfalso. apply (Hn (e_off e) (e_len e)). apply in_expand. exists e. auto.
+  Qed.
+End ReadBackCore.
